@@ -738,6 +738,55 @@ def clause8(P, res):
         res.holds(rid, "counter-sites", f"{n} atomic operations on handle counters examined", where="channels/src", obligations=n)
 
 
+def clause9(P, res, hs):
+    rid = "C04-9"
+    res.rule(rid, "a counted clone is born open: in every Clone::clone of a counted handle type, a handle built on a path that also registers it in shared state "
+                  "(counter increment / cursor insertion) has `closed` = the constant false — a clone that is counted but born closed (flag copied from a closed source) "
+                  "never wins the flag in its Drop, never gives its count back, and the side can no longer disconnect")
+    n = 0
+    for h in sorted(hs.values(), key=lambda h: h.path):
+        if not h.is_clone:
+            continue
+        cb = common.trait_method_body(P, h.path, "core::clone::Clone", "clone")
+        if cb is None:
+            continue
+        regs = [o for o in counter_ops(P, cb) if o[0] in ("inc", "list")]
+        aggs = find_handle_aggregates(P, hs, cb)
+        if not regs or not aggs:
+            continue
+        n += 1
+        key = h.path
+        bad = []
+        for b, e, r in aggs:
+            if "closed" not in r["fields"]:
+                continue
+            op = r["ops"][r["fields"].index("closed")]
+            c = b.const_of_operand(op)
+            pc = b.producer_call(op)
+            if c is None and pc is not None and pc.method == "new" and pc.args:
+                c = b.const_of_operand(pc.args[0])
+            val = None if c is None else c.get("v")
+            if val == 0:
+                continue
+            # born closed (or flag of unknown value): must not share a path with a registration made in the clone body itself
+            if b is not cb:
+                bad.append(f"{e.loc}: helper {b.name} builds the handle with closed <- {b.path_of_operand(op)}")
+                continue
+            top = [ev for k, f, ev, bb in regs if bb is cb] + [x for x in cb.calls() if any(ev for k, f, ev, bb in regs if bb is not cb) and P.body(x.callee_resolved) is not None
+                                                               and any(bb.id == x.callee_resolved or True for k, f, ev, bb in regs if bb is not cb) and x.callee_resolved.startswith("fibre::")
+                                                               and counter_ops(P, P.body(x.callee_resolved))]
+            shared_path = [t for t in top if cb.pos_reaches(t.pos, {e.pos}) or cb.pos_reaches(e.pos, {t.pos})]
+            if shared_path:
+                bad.append(f"{e.loc}: closed <- {b.path_of_operand(op)} on a path that registers the clone at {shared_path[0].loc}")
+        if bad:
+            res.violated(rid, key, "clone is counted in shared state but can be born closed: " + bad[0] + "; its Drop/close never wins the flag, so the count it took is never "
+                         "given back (receivers wait for a disconnect that cannot happen)", where=f"{cb.file}:{cb.line}", witness=bad)
+        else:
+            res.holds(rid, key, "every counted clone starts with closed = false", where=f"{cb.file}:{cb.line}")
+    if n < 15:
+        res.violated(rid, "clone-bodies", f"expected >= 15 counted Clone impls of handle types, found {n}")
+
+
 def run(P, ctx):
     res = Result("C04")
     res.extra["explanation"] = ("Closed-gate, last-handle, conversion, drop-once and drain-before-Disconnected clauses "
@@ -752,4 +801,5 @@ def run(P, ctx):
     clause6(P, res)
     clause7(P, res)
     clause8(P, res)
+    clause9(P, res, hs)
     return res
